@@ -788,6 +788,12 @@ func (x *Exec) frameRef(fr *Frame, st *State, ref Term, what string, pos token.P
 		return
 	}
 	goal := "(< (rootid " + ref + ") 0)"
+	if ref == "" && strings.HasPrefix(x.root.spec.Frame, "writes ") {
+		// a "writes p..." frame speaks about the heap the caller can see; calls with external
+		// effects (API writes) are allowed and what they write back is covered by the
+		// object-rewrite obligations of their arguments
+		return
+	}
 	if ref == "" {
 		goal = "false"
 	} else if strings.HasPrefix(x.root.spec.Frame, "writes ") {
